@@ -7,6 +7,7 @@ import (
 	"go/ast"
 	"go/token"
 	"go/types"
+	"strings"
 )
 
 func init() {
@@ -190,6 +191,10 @@ func c01b(c *Ctx) {
 			c.touch(f)
 			key := argByName(f.Info(), s.Call, "key")
 			shape := keyShape(f, key)
+			if s.Via != nil && strings.HasPrefix(shape, "other:") {
+				// a wrapper site keeps the helper's own expression for what is not a parameter: classify it there
+				shape = keyShape(s.Via, key)
+			}
 			inst := fmt.Sprintf("%s key=%s", f.Name, shape)
 			switch {
 			case shape == "const:checkpoint":
